@@ -367,7 +367,8 @@ def bounded(tier, seed):
             viol('format/parse path %r count=%r' % (segs, cnt), '%r -> %r' % (txt, back), 'the same segments and count')
     # ---- (c) depth / bundle / fragment independence through the real server
     numpath = lambda c, i, a: {'segment': [{'class': c}, {'instance': i}, {'attribute': a}]}
-    tags = {'A': ('INT', 10), 'B': ('DINT', 600), 'S': ('SINT', 4), 'N1': ('INT', 2, numpath(0x93, 3, 1)), 'N2': ('DINT', 1, numpath(0x93, 3, 2))}
+    tags = {'A': ('INT', 10), 'B': ('DINT', 600), 'S': ('SINT', 4), 'N1': ('INT', 2, numpath(0x93, 3, 1)), 'N2': ('DINT', 1, numpath(0x93, 3, 2)),
+            'T2': ('INT', 3, numpath(2, 2, 1))}          # a tag in another instance of the class that also routes the bundles
     pool = ['A[0-2]', 'A[9]', 'A[1-1]=5', 'A[2-3]=7,8', 'B[0-3]', 'B[1-1]=(DINT)70000', 'A[8-12]', 'A[10]', 'A[3-3]=(DINT)1', 'A[0-9]', 'B[0-599]', 'S[0-3]=(SINT)1,2,3,4',
             'S[1]', 'B[100-101]=(DINT)5,6', 'B[598-601]',
             # every kind of operation the client issues: Get / Set Attribute Single, Get Attributes All, and the generic service-code request
@@ -378,14 +379,16 @@ def bounded(tier, seed):
             {'method': 'service_code', 'code': 0x0e, 'path': '@0x93/3/1', 'data_size': 8},
             {'method': 'service_code', 'code': 0x10, 'path': '@0x93/3/1', 'data': [21, 22], 'tag_type': 0xc3, 'elements': 2, 'data_size': 4},
             {'method': 'service_code', 'code': 0x0e, 'path': '@0x93/3/7', 'data_size': 8},
-            {'method': 'service_code', 'code': 0x0e, 'path': '@0x93/3/2'}]
+            {'method': 'service_code', 'code': 0x0e, 'path': '@0x93/3/2'},
+            # operations addressed to objects other than the one that unpacks a bundle: another instance of its class, its class-level attributes, other classes
+            'T2[0-1]', 'T2[1-1]=(INT)77', '@2/2/1', '@2/0/2', '@2/0/3', {'method': 'get_attribute_single', 'path': '@2/2/1'}, {'method': 'get_attribute_single', 'path': '@1/1/1'}]
     rounds = 4 if tier == 'quick' else 30
     for r in range(rounds):
         if len(violations) >= 8:
             break
         ops = [rng.choice(pool) for _ in range(rng.choice([2, 5, 9]))]
         if r == 0:
-            ops = pool[15:] + ['A[0-2]']                # the first round: one of every non-tag operation kind
+            ops = pool[15:] + ['A[0-2]']                # the first round: one of every non-tag operation kind and target
         results = {}
         for depth, multiple, fragment in ((0, 0, False), (1, 0, False), (2, 0, False), (5, 0, False), (1, 100, False), (2, 250, False), (1, 500, False), (1, 0, True), (3, 250, True)):
             ev += 1
@@ -748,7 +751,47 @@ def harvest_spec(repo):
                      'zip is modelled on finite lists (its laziness - replies are only collected as needed - is exercised in the bounded tier)')
 
 
+def collect_fresh(repo):
+    """connector.collect yields one (context, reply, status, value) per reply of a response: status and value are assigned from that reply alone, before
+    they are used - a reply that carries no data yields None, not what the previous reply of the same bundle carried.  Decided on the AST."""
+    import ast
+    import z3
+    from . import frames
+    from pyvc.vals import Unsupported
+    mod, cls, fdef = repo.find_function(CF, 'connector.collect')
+    loops = [n for n in ast.walk(fdef) if isinstance(n, ast.For) and ast.unparse(n.target) == 'reply']
+    if len(loops) != 1:
+        raise Unsupported('stale contract: connector.collect has %d `for reply in ...` loops' % len(loops))
+    out = []
+    for name in ('val', 'sts'):
+        r = frames.fresh_per_iteration(loops[0], name)
+        if r is None:
+            raise Unsupported('stale contract: the reply loop of connector.collect does not use `%s`' % name)
+        v = z3.Int('fresh_per_reply_' + name)
+        out.append(('`%s` is assigned afresh for every reply before it is used' % name, [v == (1 if r else 0)], v == 1))
+    return out
+
+
+def replay_collect(model, obligation):
+    """a bundle in which failing operations follow successful ones: the value yielded for a failed operation is None"""
+    from . import netsim
+    from cpppo.server.enip import client
+    ops = ['A[0-1]', 'A[20]', 'A[2-2]=(INT)5', 'A[30]', 'A[3]']
+    with netsim.Server({'A': ('INT', 10)}) as srv:
+        with client.connector(host='127.0.0.1', port=srv.port, timeout=3.0) as conn:
+            got = [(sts if not isinstance(sts, tuple) else sts[0], val) for idx, dsc, op, rpy, sts, val in
+                   conn.pipeline(operations=client.parse_operations(ops), depth=2, multiple=500, timeout=3.0)]
+    for (sts, val), op in zip(got, ops):
+        if sts not in (0, 6) and val is not None:
+            return dict(confirmed=True, function='cpppo.server.enip.client.connector.collect', input='bundled operations %r' % (ops,), observed='%r failed with status %r but yields the value %r' % (op, sts, val),
+                        required='None for an operation whose reply carries a failure status')
+    return dict(confirmed=False)
+
+
 def contracts(repo):
     from . import C07 as _C07
     # a bundle is sent as the bytes Message_Router.produce makes of its members: every member encoded from its fields, located by the offset table (contract of C07)
-    return [issue_bundle_spec(repo), pipeline_spec(repo), harvest_spec(repo), _C07.produce_request_spec()]
+    from pyvc.spec import Custom as _Custom
+    return [issue_bundle_spec(repo), pipeline_spec(repo), harvest_spec(repo), _C07.produce_request_spec(), _C07.route_spec(),   # (members of a bundle are dispatched through route())
+            _Custom('collect_fresh', collect_fresh, replay=replay_collect, targets=[(CF, 'connector.collect')],
+                    note='dataflow condition on the AST of connector.collect: per-reply status and value are reassigned for every reply')]
